@@ -181,7 +181,9 @@ def reference():
 
 
 def rule_ref():
-    return ident
+    # A rule can be referenced by its fully qualified name
+    # (e.g. `component.types.List`) to override the default search order.
+    return _(r"\w+(\.\w+)*")
 
 
 # TODO: Remove "|" optional sep in version 4.0.
@@ -219,7 +221,7 @@ def ident():
 
 
 def qualified_ident():
-    return _(r"\w+(\.\w+)?")
+    return _(r"\w+(\.\w+)*")
 
 
 def integer():
